@@ -190,6 +190,48 @@ func propC04(c *Ctx) {
 	// window test are written in (shared evaluator with C14/S1). LessThan is
 	// the reference the composed ones are decided against; its own absolute
 	// definition is C14's subject.
+	// N3m: what "MTU" means on the way to maxPayloadSize
+	n3m := c.Rule("N3m", "K9 site tables (closed)", "the MTU chain: link MTU - network header, capped at 65535; header room = link + network header", 9)
+	c.Returns(n3m, "ipv4.calculateMTU", RetSpec{Args: []string{"(phi{$0 | 65535} - 20)"}, Why: "IPv4 payload room = min(link MTU, 65535) - 20"})
+	c.Returns(n3m, "ipv6.calculateMTU",
+		RetSpec{Args: []string{"($0 - 40)"}, Guards: []string{"(($0 - 40) < 65536)"}, Why: "IPv6 payload room = link MTU - 40"},
+		RetSpec{Args: []string{"65535"}, Guards: []string{"!(($0 - 40) < 65536)"}, Why: "... capped at 65535"})
+	c.Returns(n3m, "(*ipv4.endpoint).MTU", RetSpec{Args: []string{"ipv4.calculateMTU(iface:stack.LinkEndpoint.MTU($0.linkEP))"}, Why: "from the link's MTU"})
+	c.Returns(n3m, "(*ipv6.endpoint).MTU", RetSpec{Args: []string{"ipv6.calculateMTU(iface:stack.LinkEndpoint.MTU($0.linkEP))"}, Why: "from the link's MTU"})
+	c.Returns(n3m, "(*ipv4.endpoint).MaxHeaderLength", RetSpec{Args: []string{"(20 + iface:stack.LinkEndpoint.MaxHeaderLength($0.linkEP))"}, Why: "room for link + IPv4 header"})
+	c.Returns(n3m, "(*ipv6.endpoint).MaxHeaderLength", RetSpec{Args: []string{"(40 + iface:stack.LinkEndpoint.MaxHeaderLength($0.linkEP))"}, Why: "room for link + IPv6 header"})
+	c.Returns(n3m, "(*stack.Route).MTU", RetSpec{Args: []string{"iface:stack.NetworkEndpoint.MTU($0.ref.ep)"}, Why: "the route's MTU is its network endpoint's"})
+	c.Returns(n3m, "(*stack.Route).MaxHeaderLength", RetSpec{Args: []string{"iface:stack.NetworkEndpoint.MaxHeaderLength($0.ref.ep)"}, Why: "likewise the header room"})
+	if fn := c.Fn(n3m, "tcp.FindWndScale"); fn != nil {
+		// shape-tolerant (early return <-> if-block around the loop): every result
+		// is 0 or the loop's shift count, and the 64 KiB test is among the conditions
+		okRes, sawZero := true, false
+		for _, st := range Sites(fn) {
+			if st.Kind == "return" && len(st.Args) == 1 {
+				a := st.Args[0]
+				if a == "0" || strings.Contains(a, "| 0}") || strings.Contains(a, "{0 |") {
+					sawZero = true
+				}
+				if !(a == "0" || strings.Contains(a, "loop")) {
+					okRes = false
+				}
+			}
+		}
+		has64k := false
+		for _, e := range CondEdges(fn) {
+			if e.Atom == "($0 < 65536)" {
+				has64k = true
+			}
+		}
+		c.Check(okRes && sawZero && has64k, n3m, FuncName(fn)+"/zero-below-64k", c.P.Pos(fn.Pos()), "0 for windows below 64 KiB, else the halving loop's count", "FindWndScale no longer returns 0 below 64 KiB / the loop's shift count above")
+	}
+	if fn := c.Fn(n3m, "tcp.sendSynTCP"); fn != nil {
+		c.CheckSitesPresent(n3m, fn, []SiteSpec{
+			{Kind: "call", Target: "(*stack.Route).MTU", Args: []string{"$0"}, Guards: []string{"(0 == phi{$6.MSS | ((*stack.Route).MTU($0) - 20)})"}, N: 0, Why: "an unset MSS option is filled from the route: MTU - TCP header"},
+			{Kind: "call", Target: "tcp.sendTCP", Args: []string{"$0", "$1", "zero", "(*stack.Route).DefaultTTL($0)", "$2", "$3", "$4", "$5", "tcp.makeSynOptions(phi{$6 | partial})"}, Guards: []string{}, Exact: true, N: 1, Why: "a SYN carries no payload, the flags/seq/ack/window handed in and the encoded SYN options"},
+		})
+	}
+
 	n6s := c.Rule("N6s", "K9/affine32 (shared with C14/S1)", "window primitives used by acceptable/sendData == their definitions for all operands", 4)
 	seqnumPrimitives(c, n6s, map[string]bool{"seqnum.Value.InWindow": true, "seqnum.Overlap": true, "seqnum.Value.Add": true, "seqnum.Value.Size": true, "seqnum.Value.LessThanEq": true})
 
